@@ -407,3 +407,32 @@ def coq_eval_ints(imports, expr, tag="cases", timeout=600):
     body = out.split("=", 1)[1] if "=" in out else out
     body = body.rsplit(":", 1)[0]
     return [int(x) for x in re.findall(r"-?\d+", body)], ""
+
+
+CLI_TARGET = os.path.join(CACHE, "repo-target")
+
+
+def build_cli(timeout=3000):
+    """Builds the warcraft-rs binary from /repo's CURRENT working tree (own target dir)."""
+    with Lock("cargo-cli"):
+        rc, out = sh("timeout %d cargo build --offline -p warcraft-rs" % timeout, cwd=REPO,
+                     env={"CARGO_TARGET_DIR": CLI_TARGET}, timeout=timeout + 30)
+    return rc == 0, os.path.join(CLI_TARGET, "debug", "warcraft-rs"), out[-3000:]
+
+
+def snapshot(root):
+    """path -> (kind, size, sha1) for everything below root (symlinks not followed)."""
+    snap = {}
+    for d, dirs, files in os.walk(root):
+        for n in dirs:
+            p = os.path.join(d, n)
+            snap[p] = ("dir", 0, "")
+        for n in files:
+            p = os.path.join(d, n)
+            try:
+                with open(p, "rb") as f:
+                    b = f.read()
+                snap[p] = ("file", len(b), hashlib.sha1(b).hexdigest())
+            except OSError:
+                snap[p] = ("unreadable", 0, "")
+    return snap
